@@ -419,13 +419,13 @@ class Tensor:
     # *************************
     
     def __add__(self, summand:'Tensor') -> 'Tensor':
-        summand = summand if isinstance(summand, Tensor) else Tensor(summand, device=self.device)
+        summand = summand if isinstance(summand, Tensor) else Tensor(summand, dtype=self.dtype if self.is_floating_point else None, device=self.device)
         from . import functional as F
         return  F.add(self, summand)
         
         
     def __mul__(self, factor:'Tensor') -> 'Tensor':
-        factor = factor if isinstance(factor, Tensor) else Tensor(factor, device=self.device)
+        factor = factor if isinstance(factor, Tensor) else Tensor(factor, dtype=self.dtype if self.is_floating_point else None, device=self.device)
         from . import functional as F
         return F.mul(self, factor)
     
